@@ -18,6 +18,7 @@ RULE = ("Hypothesis: bar-grid pieces of 1-6 planned bars with 1-4 tracks; meta_t
         "sounding set with velocities exactly (re-quantisation off) or a subset in which every note that crosses no bar "
         "line is reproduced exactly (on); inputs unchanged in both views. Non-trivial: >= 2 bars and (signature change, key "
         "change, cut note or unequal track lengths). Distinct by case digest.")
+RULE = RULE + " Round h: the inputs were split into bars before with the other re-quantisation setting."
 ASSUMPTIONS = ["signature/key changes fall on bar boundaries of the meta track (the statement's precondition)",
                "no event sits exactly on the final tick of a track that ends on a bar line (would start one more, empty, bar)"]
 TIERS = {"quick": dict(shards=8, examples=1500), "thorough": dict(size=2, shards=16, examples=15000)}
@@ -75,7 +76,7 @@ def _case(draw, size=1):
         if i == m and (spec["pad"] or 0) < meta_lo and end < meta_lo:
             spec["pad"] = dur
         tracks.append(spec)
-    return {"tracks": tracks, "meta_index": m, "requant": requant}
+    return {"tracks": tracks, "meta_index": m, "requant": requant, "split_before": draw(st.integers(0, 4)) == 0}
 
 
 def strategy(params, shard, nshards):
@@ -108,6 +109,10 @@ def check(case):
                                ("unequal-tracks", unequal)) if c])
     before = [O.canon((c[0], c[1])) for c in contents]
     try:
+        if case.get("split_before"):
+            # the same input objects were split into bars before, with the other re-quantisation setting
+            out.label("split-before")
+            Sequence.sequences_split_bars(seqs, meta_track_index=m, quantise_note_lengths=not case["requant"])
         tracks_bars = Sequence.sequences_split_bars(seqs, meta_track_index=m, quantise_note_lengths=case["requant"])
     except Exception as e:
         out.fail("split-bars-raises", f"{type(e).__name__}: {e}")
